@@ -310,8 +310,10 @@ func cbSideEffect(mode int, site uint32) error {
 		panic("callback-panic")
 	case cbReenter:
 		Count("cb_reenter")
-		b, err := gojson.Marshal(map[string]interface{}{"re": []int{1, 2, 3}, "s": Small{A: 7, B: "re<enter>", C: true}})
-		if err != nil || string(b) != `{"re":[1,2,3],"s":{"A":7,"B":"re\u003center\u003e","C":true}}` {
+		// (one map entry only: go-json walks a Go map in Go's random order, which
+		// would make the order of yield points differ from run to run)
+		b, err := gojson.Marshal(map[string]interface{}{"re": []interface{}{[]int{1, 2, 3}, Small{A: 7, B: "re<enter>", C: true}}})
+		if err != nil || string(b) != `{"re":[[1,2,3],{"A":7,"B":"re\u003center\u003e","C":true}]}` {
 			panic(fmt.Sprintf("reentrant marshal wrong: %s %v", b, err))
 		}
 		var s Small
